@@ -22,6 +22,7 @@ EXPLANATION = (
     "ValueEnum::from_str iterates value_variants() and tests to_possible_value().matches(input, ignore_case). "
     "NOT decided: success-equivalence with the generated command on every argv, the print/parse round trip, update histories."
     ' R15.1 (added): update_from_arg_matches delegates to a flattened field unconditionally.'
+    ' R15.2 (added): gen_augment translates flat (Vec, Option<Vec>) and nested (Vec<Vec>, Option<Vec<Vec>>) vector shapes in different arms.'
 )
 TRUSTED = ["rustc (macro expansion + type check of the corpus)", "clapfacts", "the shape table below (written from the property statement)"]
 ASSUMPTIONS = ["the corpus shapes are representative of user derive inputs with the same type shapes", "Vec<Vec<T>> needs clap's unstable-v5 feature and is not in the corpus"]
